@@ -2,12 +2,15 @@
 package main
 
 import (
+	"bufio"
 	"bytes"
 	"encoding/binary"
 	"encoding/json"
 	"fmt"
+	"io"
 	"reflect"
 	"strings"
+	"testing/iotest"
 	"time"
 
 	"github.com/libsv/go-bt/v2"
@@ -115,9 +118,9 @@ func parseCase(kind string, b []byte) { reqs = append(reqs, req{"P", kind, b}) }
 func listCase(kind string, b []byte)  { reqs = append(reqs, req{"L", kind, b}) }
 
 type reply struct {
-	Coq        string            `json:"coq"`
-	OK         bool              `json:"ok"`
-	Nontrivial bool              `json:"nt"`
+	Coq        string             `json:"coq"`
+	OK         bool               `json:"ok"`
+	Nontrivial bool               `json:"nt"`
 	Viol       []common.Violation `json:"viol"`
 }
 
@@ -126,7 +129,9 @@ func handle(line string) string {
 	f := strings.SplitN(line, " ", 3)
 	b := common.Unhex(f[2])
 	var rp reply
-	viol := func(site, what string) { rp.Viol = append(rp.Viol, common.Violation{Site: site, What: what, Input: trunc(f[2])}) }
+	viol := func(site, what string) {
+		rp.Viol = append(rp.Viol, common.Violation{Site: site, What: what, Input: trunc(f[2])})
+	}
 	if f[0] == "P" {
 		doParse(b, &rp, viol)
 	} else {
@@ -162,6 +167,9 @@ func runReqs() {
 	}
 }
 
+// reusedTx: long-lived transaction objects every parse request is also read into (one per reader kind)
+var reusedTx = []*bt.Tx{{}, {}, {}}
+
 func doParse(b []byte, rp *reply, viol func(site, what string)) {
 	var tx *bt.Tx
 	var used int
@@ -182,6 +190,22 @@ func doParse(b []byte, rp *reply, viol func(site, what string)) {
 	}
 	if used > len(b) {
 		viol("NewTxFromStream/consumed-gt-supplied", fmt.Sprintf("used %d of %d", used, len(b)))
+	}
+	// the same bytes read into a Tx object that has been used for other transactions before (through readers
+	// that also return short reads): what it holds afterwards is what was read now, nothing of its past
+	for k, rd := range []io.Reader{bytes.NewReader(b), bufio.NewReaderSize(iotest.OneByteReader(bytes.NewReader(b)), 16), iotest.DataErrReader(bytes.NewReader(b))} {
+		var n int64
+		var e error
+		if p, msg := common.Safely(func() { n, e = reusedTx[k].ReadFrom(rd) }); p {
+			viol("Tx.ReadFrom/panic", msg)
+			reusedTx[k] = &bt.Tx{}
+			continue
+		}
+		if (e == nil) != ok {
+			viol("Tx.ReadFrom/verdict-differs-on-a-used-object-or-reader", fmt.Sprintf("reader kind %d: err %v, NewTxFromStream err %v", k, e, err))
+		} else if ok && (int(n) != used || !bytes.Equal(reusedTx[k].ExtendedBytes(), ext) || !bytes.Equal(reusedTx[k].Bytes(), std)) {
+			viol("Tx.ReadFrom/result-depends-on-what-the-object-held-before-or-on-the-reader", fmt.Sprintf("reader kind %d: read %d bytes (stream parse %d); serialises to %s, expected %s", k, n, used, trunc(common.Hex(reusedTx[k].ExtendedBytes())), trunc(common.Hex(ext))))
+		}
 	}
 	_, e3 := bt.NewTxFromBytes(b)
 	fbOK := e3 == nil
@@ -301,6 +325,15 @@ func main() {
 			parseCase("valid", b)
 		}
 	}
+	// empty transactions between non-empty ones (a reused object must not keep the previous inputs / outputs)
+	for i := 0; i < 6; i++ {
+		parseCase("valid", txgen.Build(txgen.Gen(r, false)).Bytes())
+		e := []byte{byte(1 + i), 0, 0, 0, 0, 0, byte(i), 0x11, 0x22, 0x33}
+		if i%2 == 1 {
+			e = []byte{2, 0, 0, 0, 0, 0, 0, 0, 0, 0xef, 0, 0, 7, 0, 0, 0} // extended form of the empty transaction
+		}
+		parseCase("empty", e)
+	}
 	// every truncation offset of one small tx, both formats
 	{
 		s := txgen.TxSpec{Version: 1, Lock: 7, Ins: []txgen.InSpec{{Txid: common.Hex(r.Bytes(32)), Vout: 1, Unlock: "5151", Seq: 0xfffffffe, Sats: 9, Prev: "76a9"}}, Outs: []txgen.OutSpec{{Sats: 5, Script: "6a0101"}}}
@@ -373,12 +406,12 @@ func main() {
 					return b
 				}
 				lock := []byte{0, 0, 0, 0}
-				parseCase("huge-count", cat(head, hv, []byte{1}, out, lock))              // inputs
-				parseCase("huge-count", cat(head, hv, []byte{0}, lock))                    // inputs, no outputs
-				parseCase("huge-count", cat(head, []byte{1}, oneIn, hv, lock))             // outputs
-				parseCase("huge-count", cat(head, []byte{1}, oneIn, hv, out, lock))        // outputs, one present
+				parseCase("huge-count", cat(head, hv, []byte{1}, out, lock))                                                         // inputs
+				parseCase("huge-count", cat(head, hv, []byte{0}, lock))                                                              // inputs, no outputs
+				parseCase("huge-count", cat(head, []byte{1}, oneIn, hv, lock))                                                       // outputs
+				parseCase("huge-count", cat(head, []byte{1}, oneIn, hv, out, lock))                                                  // outputs, one present
 				parseCase("huge-count", cat(head, []byte{1}, txid, []byte{0, 0, 0, 0}, hv, []byte{0xff, 0xff, 0xff, 0xff, 0}, lock)) // unlocking script length
-				parseCase("huge-count", cat(head, []byte{1}, oneIn, []byte{1}, []byte{5, 0, 0, 0, 0, 0, 0, 0}, hv, lock))       // locking script length
+				parseCase("huge-count", cat(head, []byte{1}, oneIn, []byte{1}, []byte{5, 0, 0, 0, 0, 0, 0, 0}, hv, lock))            // locking script length
 				listCase("huge-count", cat(hv))
 				listCase("huge-count", cat(hv, head, []byte{0, 0}, lock))
 			}
@@ -418,6 +451,6 @@ func main() {
 		listCase(kind, append(bt.VarInt(cnt).Bytes(), body...))
 	}
 	runReqs()
-	c.Stats.Rule = "structured generator (boundary field values, script lengths {0,1,2,3,25,75,76,107,252,253,254,300,65535,65536,70000}, counts {0..3,252,253,254,300}) -> build cases; byte-level stream: valid/concatenated/truncated(every offset of one tx)/trailing/bit-flipped/random/hostile-length/non-minimal-varint-in-every-position/counts 2^62..2^64-1 in every count and length position followed by a complete transaction for count zero, and counted lists. distinct = distinct input bytes; non-trivial = build cases with at least one input or output, parse cases the decoder accepts, lists with at least one tx"
+	c.Stats.Rule = "structured generator (boundary field values, script lengths {0,1,2,3,25,75,76,107,252,253,254,300,65535,65536,70000}, counts {0..3,252,253,254,300}) -> build cases; byte-level stream: valid/concatenated/truncated(every offset of one tx)/trailing/bit-flipped/random/hostile-length/non-minimal-varint-in-every-position/counts 2^62..2^64-1 in every count and length position followed by a complete transaction for count zero, and counted lists; every parse request is also read through Tx.ReadFrom into long-lived transaction objects (plain, one-byte-at-a-time and data-with-EOF readers) whose result must not depend on what they held before. distinct = distinct input bytes; non-trivial = build cases with at least one input or output, parse cases the decoder accepts, lists with at least one tx"
 	c.Finish()
 }
